@@ -45,11 +45,34 @@ def _loop_facts(lp):
     return None
 
 
+def takewhile_scan(e):
+    """`list(itertools.takewhile(lambda p: p[0] == p[1], zip(A, B)))` -> ([A, B], guarded) or None."""
+    if not (isinstance(e, ast.Call) and call_name(e) in ("list", "tuple") and len(e.args) == 1):
+        return None
+    tw = e.args[0]
+    if not (isinstance(tw, ast.Call) and (call_name(tw) or "").rsplit(".", 1)[-1] == "takewhile" and len(tw.args) == 2):
+        return None
+    pred, src = tw.args
+    if not (isinstance(src, ast.Call) and call_name(src) == "zip" and len(src.args) == 2):
+        return None
+    guarded = False
+    if isinstance(pred, ast.Lambda) and len(pred.args.args) == 1 and not pred.args.defaults:
+        pv = pred.args.args[0].arg
+        guarded = ast.unparse(pred.body).replace(" ", "") in (f"{pv}[0]=={pv}[1]", f"{pv}[1]=={pv}[0]")
+    return list(src.args), guarded
+
+
 def helper_is_equal_pair_scan(fi):
     """Does function fi(A, B) return the list of leading pairs of zip(A, B) that are equal?  -> (guarded, stops) or None."""
     ps = [p for p in func_params(fi.node) if p not in ("self", "cls")]
     if len(ps) != 2:
         return None
+    rets_ = [r for r in walk_no_nested(fi.node) if isinstance(r, ast.Return) and r.value is not None]
+    if len(rets_) == 1:
+        from .astx import resolve_local
+        tw = takewhile_scan(resolve_local(fi.node, rets_[0].value))
+        if tw is not None and [dotted(x) for x in tw[0]] == ps:
+            return tw[1], True      # takewhile stops at the first pair its predicate rejects
     for lp in walk_no_nested(fi.node):
         if isinstance(lp, ast.For):
             zc, bound = _zip_of(lp.iter)
@@ -83,6 +106,10 @@ def equal_pair_scans(model, cls_q, init):
         if isinstance(a, (ast.Assign, ast.AnnAssign)) and a.value is not None and isinstance(a.value, ast.Call):
             tgt = a.targets[0] if isinstance(a, ast.Assign) else a.target
             attr = self_attr(tgt)
+            tw = takewhile_scan(a.value) if attr else None
+            if tw is not None:
+                out.append({"attr": attr, "args": tw[0], "bound": None, "guarded": tw[1], "stops": True, "node": a, "via": "takewhile"})
+                continue
             if not attr or len(a.value.args) != 2:
                 continue
             fn = a.value.func
